@@ -429,7 +429,11 @@ namespace details {
 				std::streamsize content_size = pptr() - pbase();
 				if(size_t(size) > output_.size())
 					output_.resize(size);
-				do_setp();
+				// everything is kept until the response is complete: never shrink below what is already buffered
+				if(output_.empty())
+					setp(0,0);
+				else
+					setp(&output_[0],&output_[0]+output_.size());
 				pbump(content_size);
 				return this;
 			}
